@@ -80,6 +80,12 @@ def native_compare(skel, variant="default", what="expected", seed=7, batch=None)
     if variant == "clip":
         clip = {"clip_sample": 0.7, "clip_bin": 1.1}
         kw.update(clip_sample_data=0.7, clip_bin_data=1.1)
+    if variant == "clipbin":
+        # only the per-bin floor, placed above the smallest nominal bin total so that it is certainly active at some points
+        totals = [sum(s_["data"][b] for s_ in ch["samples"]) for ch in spec["channels"] for b in range(len(ch["samples"][0]["data"]))]
+        floor = 1.05 * sorted(totals)[len(totals) // 2]
+        clip = {"clip_bin": floor}
+        kw.update(clip_bin_data=floor)
     if batch:
         kw["batch_size"] = batch
     try:
